@@ -83,8 +83,41 @@ def comm_key(p, xdate):
     if p.cost is not None:
         kind, cq, cdec, ccomm = p.cost
         unit = cq if kind == '@' else abs(cq / p.q)
-        return '%s~%s~%s~' % (base, price_key((unit, 0, ccomm)), xdate)
+        # price and date computed by finalize: ANNOTATION_PRICE_CALCULATED / DATE_CALCULATED.
+        # The hook prints only the written details, so these two fields are marked with '!'
+        # (the model treats the fields as opaque text) and dropped when the model's keys are
+        # spelled the way the hook prints them (printed_key).
+        return '%s~!%s~!%s~' % (base, price_key((unit, 0, ccomm)), xdate)
     return base
+
+
+def printed_key(k):
+    f = k.split('~')
+    if len(f) != 4:
+        return k
+    g = [f[0]] + [('' if x.startswith('!') else x) for x in f[1:]]
+    return g[0] if not (g[1] or g[2] or g[3]) else '~'.join(g)
+
+
+def model_value(s):
+    """a value printed by the model driver, with its keys spelled as the hook prints them"""
+    def one(part):
+        m = re.fullmatch(r'A:([0-9a-f]*):(.*)', part)
+        if not m:
+            return part
+        return 'A:%s:%s' % (printed_key(bytes.fromhex(m.group(1)).decode('utf-8', 'replace')).encode().hex(), m.group(2))
+    if s.startswith('B:'):
+        return 'B:' + ';'.join(sorted(one(p) for p in s[2:].split(';'))) if s[2:] else s
+    if s.startswith('A:'):
+        return one(s)
+    return s
+
+
+def model_line(l):
+    if l.startswith('grand '):
+        return 'grand ' + '|'.join(model_value(x) for x in l[6:].split('|'))
+    f = l.split('|')
+    return '|'.join([f[0]] + [model_value(x) for x in f[1:]])
 
 
 def total_cost(p):
@@ -654,7 +687,7 @@ def one_journal(ctx, res, j, opts, tag):
     mout = {}
     for l in lib.run_model('C05', lines):
         cid, _, rest = l.partition(' ')
-        mout.setdefault(cid, []).append(rest)
+        mout.setdefault(cid, []).append(model_line(rest))
     done_f = {}
     for oi, ent in enumerate(plan):
         o = ent['o']
